@@ -369,7 +369,7 @@ func (b *TableColumnGroupBox) span() int {
 	if len(b.Children) != 0 {
 		return len(b.Children)
 	}
-	return integerAttribute(utils.HTMLNode(*b.Element).Get("span"), 1)
+	return utils.MinInt(integerAttribute(utils.HTMLNode(*b.Element).Get("span"), 1), 1000) // clamped by the HTML Standard
 }
 
 // Return cells that originate in the group's columns.
@@ -390,7 +390,7 @@ func NewTableColumnBox(style pr.ElementStyle, element *html.Node, pseudoType str
 }
 
 func (b *TableColumnBox) span() int {
-	return integerAttribute(utils.HTMLNode(*b.Element).Get("span"), 1)
+	return utils.MinInt(integerAttribute(utils.HTMLNode(*b.Element).Get("span"), 1), 1000) // clamped by the HTML Standard
 }
 
 // Read an integer attribute from the HTML element.
@@ -416,8 +416,10 @@ func NewTableCellBox(style pr.ElementStyle, element *html.Node, pseudoType strin
 	// but HTML 5 removed it
 	// http://www.w3.org/TR/html5/tabular-data.html#attr-tdth-colspan
 	// rowspan=0 is still there though.
-	out.Colspan = integerAttribute(utils.HTMLNode(*element).Get("colspan"), 1)
-	out.Rowspan = integerAttribute(utils.HTMLNode(*element).Get("rowspan"), 0)
+	// the HTML Standard clamps colspan to [1, 1000] and rowspan to [0, 65534]
+	// https://html.spec.whatwg.org/multipage/tables.html#attr-tdth-colspan
+	out.Colspan = utils.MinInt(integerAttribute(utils.HTMLNode(*element).Get("colspan"), 1), 1000)
+	out.Rowspan = utils.MinInt(integerAttribute(utils.HTMLNode(*element).Get("rowspan"), 0), 65534)
 	return &out
 }
 
